@@ -199,6 +199,8 @@ PROPERTIES = {
             ('C04-R5', cglob.rule_globstar_capture, 'quick'),
             ('C14-R4', c14.rule_pruning, 'quick'),
             ('C14-R1', c14.rule_wcmatch_flags, 'quick'),
+            ('C04-R4', cglob.rule_negate_flags_normalised, 'quick'),
+            ('C03-R4', c03.rule_exclusion_dotmatch, 'quick'),
         ],
     },
     'C12': {
